@@ -10,6 +10,8 @@ import (
 	"go/types"
 	"math/big"
 	"strings"
+
+	"golang.org/x/tools/go/ssa"
 )
 
 type State struct {
@@ -979,6 +981,32 @@ func (c *evalCtx) call(x *ECall) Term {
 			r = "(s-arr " + a.S + ")"
 		}
 		return Term{fmt.Sprintf("(and (> %s %s) (<= %s %s))", r, c.old.alloc, r, c.st.alloc), sortBool}
+	case "res":
+		// res("callee"): the value returned by the one call in this function whose callee name contains
+		// the given text (for results the source does not bind to a name, e.g. `range f(x)`)
+		sarg, ok := x.Args[0].(*EString)
+		if !ok || len(x.Args) != 1 || c.ft == nil {
+			c.fail("res(\"callee\")")
+		}
+		var found *ssa.Call
+		for _, b := range c.ft.fn.Blocks {
+			for _, in := range b.Instrs {
+				if call, ok := in.(*ssa.Call); ok && strings.Contains(calleeName(call.Common()), sarg.V) {
+					if found != nil {
+						c.fail("res(%q): more than one such call", sarg.V)
+					}
+					found = call
+				}
+			}
+		}
+		if found == nil {
+			c.fail("res(%q): no such call", sarg.V)
+		}
+		v := c.ft.vals[found]
+		if v == nil || v.Tup != nil {
+			c.fail("res(%q): result not available here", sarg.V)
+		}
+		return v.T
 	case "athead":
 		// athead(e): e as it was when this iteration started (iterpost clauses only)
 		if c.headSt == nil || len(x.Args) != 1 {
